@@ -222,7 +222,7 @@ def main():
         'version': 1,
         'setup_cmd': './check --setup',
         'hooks': {'guard': 'COVESA_OPEN1722_VERIF', 'enable': 'the harness compiles /repo sources with -DCOVESA_OPEN1722_VERIF (no hook is needed so far: no guarded code exists in /repo)',
-                  'baseline_off_cmd': 'cmake -G Ninja -B /repo/_build -S /repo && cmake --build /repo/_build && ctest --test-dir /repo/_build -j8 --timeout 900',
+                  'baseline_off_cmd': 'cmake -G Ninja -B /repo/_build -S /repo -DUNIT_TESTING=ON && cmake --build /repo/_build && ctest --test-dir /repo/_build -j8 --timeout 900',
                   'source_commits': [], 'add_only': True},
         'engines': [{'name': 'coq-open1722', 'path': 'coq/', 'serves_properties': sorted(CLAIMED.keys()),
                      'kind_free_text': 'Coq 8.16.1 development (model + theorems), translators from the C sources, extracted OCaml oracle, sanitizer-built C correspondence harness, python3 driver ./check'}],
